@@ -198,11 +198,20 @@ def run(ctx):
   finish(ctx, lines, pending)
   # ---- (2) convergence, re-projection, nearest point (oracle only)
   exact = ["mono", "uni", "ew", "tz", "md", "jm"]
-  for _ in range(ctx.n(10, 150)):
-    fams = rng.sample(exact, rng.choice([1, 1, 2, 3]))
+  for it in range(ctx.n(12, 150)):
+    # stratified: every exactly-projected family leads at least twice per quick run
+    fams = [exact[it % len(exact)]] + rng.sample([f for f in exact if f != exact[it % len(exact)]], rng.choice([0, 0, 1, 2]))
     if "rd" not in fams and rng.random() < 0.15:
       fams = fams + ["rd"]
     cfg = gen_cfg(rng, fams, max_vertices=16)
+    for _try in range(20):
+      # trusts: prefer shapes where main and conditional sizes differ (size-2 main with a longer conditional axis)
+      if not (cfg["tz"] or cfg["ew"]) or it % 2 == 0:
+        break
+      m_, c_ = (cfg["tz"] or cfg["ew"])[0][:2]
+      if cfg["sizes"][m_] == 2 and cfg["sizes"][c_] >= 3:
+        break
+      cfg = gen_cfg(rng, fams, max_vertices=16)
     n = int(np.prod(cfg["sizes"]))
     kind, w = c01.gen_kernel(rng, n, 1)
     if kind in ("huge", "tiny"):
